@@ -22,7 +22,7 @@ from . import core
 from . import e1_threads as E1
 
 PROP = "C12"
-RUNS = {"quick": 2000, "thorough": 40000}
+RUNS = {"quick": 2000, "thorough": 20000}
 WALL_CAP = {"quick": 300.0, "thorough": 3000.0}
 CORPUS = {"quick": (60, 30000), "thorough": (300, 100000)}
 
